@@ -2,6 +2,8 @@
   C04 — sum, difference, negation, involutions and grade selection act blade-wise.
 -/
 import Kingdon.Lemmas.Linear
+import Kingdon.Lemmas.Keys
+import Kingdon.Lemmas.MiscLemmas
 import Kingdon.Lemmas.CfgAlgebra
 namespace Kingdon.C04
 open Finsupp
@@ -46,5 +48,18 @@ theorem involute_is_automorphism (c : Cfg) (h : c.admissible = true) (a b : ℕ 
     lin (involSign [1, 3]) (clMulS c.computeSign a b) =
       clMulS c.computeSign (lin (involSign [1, 3]) a) (lin (involSign [1, 3]) b) :=
   involute_aut c (Cfg.adm_of_admissible c h) a b ha hb
+
+/-- **a.grade(..) returns exactly the stored coefficients of the requested grades**: every returned pair is a stored
+    pair of a requested grade, and as an element the result is the grade projection -/
+theorem grade_selection_exact (c : Cfg) (h : c.admissible = true) (gs : List Nat) (hgs : gs.Nodup) (x : MV α)
+    (hk : (keysOf x).Nodup) (hr : ∀ k ∈ keysOf x, k < 2 ^ c.d) :
+    (∀ kv ∈ gradeSel c gs x, kv ∈ x ∧ popcount kv.1 ∈ gs) ∧
+    den (gradeSel c gs x) = (den x).filter (fun k => popcount k ∈ gs) :=
+  ⟨fun kv hm => gradeSel_subset c (Cfg.adm_of_admissible c h) gs x kv hm,
+   gradeSel_den c (Cfg.adm_of_admissible c h) (binOf_injective_of_admissible c h) gs hgs x hk hr⟩
+
+/-- the grade sets (mod 4) the three involutions negate, extracted by probing the real codegen functions -/
+theorem involution_grade_sets_extracted :
+    Gen.invertGrades = [("reverse", [2, 3]), ("involute", [1, 3]), ("conjugate", [1, 2])] := involution_grade_sets
 
 end Kingdon.C04
